@@ -6,6 +6,7 @@ CONSTANTS
   Cap = 1
   DropParentCloseW = FALSE
   FailAt = 2
+  LateFail = "clean"
   HereAt = 0
   HereUnits = 0
   SigpipeMode = "ignored"
